@@ -14,8 +14,16 @@ def validate_encoded(string):
       "(it must be one of [fcsiCSI] followed by a comma-separated list of:"+
       " for f: floats; for csi: signed integers; for CSI: unsigned integers)")
 
-def validate_decoded(numeric_array):
-  numeric_array.validate()
+def validate_decoded(obj):
+  if isinstance(obj, gfapy.NumericArray):
+    obj.validate()
+  elif isinstance(obj, list):
+    gfapy.NumericArray(obj).validate()
+  else:
+    raise gfapy.TypeError(
+      "the class {} is incompatible with the datatype\n"
+      .format(obj.__class__.__name__)+
+      "(accepted classes: list, gfapy.NumericArray)")
 
 def unsafe_encode(obj):
   if isinstance(obj, gfapy.NumericArray):
